@@ -64,7 +64,8 @@ def struct_rows(struct):
     return flat_leaves(struct)
 
 
-def build(system, rows, momentum, struct, route="zip", spelling=0, extra=False, regular=False, reverse_fields=False, input_kind=None):
+def build(system, rows, momentum, struct, route="zip", spelling=0, extra=False, regular=False, reverse_fields=False, input_kind=None,
+          names_override=None):
     """Returns an Awkward vector array with the given structure.
 
     route: 'zip' (vector.zip of per-coordinate columns; missing leaves become option-typed *fields*),
@@ -76,7 +77,7 @@ def build(system, rows, momentum, struct, route="zip", spelling=0, extra=False, 
     import vector
     import vector.backends.awkward as vba
 
-    names = B.names_for(system, momentum, spelling)
+    names = list(names_override) if names_override else B.names_for(system, momentum, spelling)
     if momentum and not any(n in B.GENERIC_OF for n in names):
         momentum = False
     dim = len(system) + 1
